@@ -588,6 +588,7 @@ UNSAFE_ALLOWED = {
     "identity_storage::storage::jwk_document_ext::purge_method_core_document": "expansion of futures::join! (pin projection of a stack future)",
     "identity_storage::storage::jwk_document_ext::iota_document::purge_method_iota_document": "expansion of futures::join! (pin projection of a stack future)",
     "identity_core::custom_time::now_utc_custom": "extern \"Rust\" hook of the optional `custom_time` feature",
+    "identity_core::custom_time::now_utc_custom::{ForeignMod#0}::__now_utc_custom": "declaration of that hook (foreign items are unsafe to call)",
 }
 FORBID_UNSAFE_CRATES = ("identity_credential", "identity_did", "identity_document", "identity_iota", "identity_jose", "identity_resolver",
                         "identity_storage", "identity_verification")
@@ -595,25 +596,7 @@ FORBID_UNSAFE_CRATES = ("identity_credential", "identity_did", "identity_documen
 
 # ---------------------------------------------------------------------------------------------------------------------------
 
-_SUB = {}
-
-
-def subordinate(F, pid, tier):
-    """Run another property's rules silently; return {rule id: [unlisted failure keys]} and the set of rule ids that ran."""
-    if pid in _SUB:
-        return _SUB[pid]
-    mod = importlib.import_module(pid.lower())
-    sub = Reporter(pid, tier)
-    mod.run(F, sub, tier)
-    known = set()
-    kf = os.path.join(VERIF, "known_findings.json")
-    if os.path.exists(kf):
-        for f in json.load(open(kf)).get("findings", []):
-            if f["property"] == pid:
-                known.add(f["key"])
-    res = {r.rid: [k for k, _, _ in r.fails if k not in known] for r in sub.rules}
-    _SUB[pid] = res
-    return res
+from rulelib import subordinate  # noqa: E402
 
 
 def check_gates(F, R):
